@@ -22,7 +22,7 @@ PASS_THROUGH = {
     "std::vec::Vec::<T, A>::as_slice", "std::vec::Vec::<T, A>::as_mut_slice",
     "std::string::String::as_bytes", "core::str::<impl str>::as_bytes",
     "core::str::<impl str>::to_string", "core::str::<impl str>::to_owned",
-    "std::iter::Iterator::by_ref",
+    "std::iter::Iterator::by_ref", "std::hint::must_use",
     "std::option::Option::<T>::as_ref", "std::option::Option::<T>::as_mut",
     "std::result::Result::<T, E>::as_ref",
     "std::option::Option::<&T>::cloned", "std::option::Option::<&T>::copied",
@@ -57,6 +57,14 @@ ITER_TRUNCATING = {
     "std::iter::Iterator::chain", "std::iter::Iterator::zip",
 }
 NEXT_CALLS = {"std::iter::Iterator::next"}
+ITER_SOURCES.update({
+    "std::collections::HashMap::<K, V, S, A>::iter": "iter",
+    "std::collections::HashMap::<K, V, S, A>::keys": "keys",
+    "std::collections::HashMap::<K, V, S, A>::values": "values",
+    "std::collections::HashMap::<K, V, S, A>::into_iter": "into_iter",
+    "std::collections::HashSet::<T, S, A>::iter": "iter",
+    "std::collections::BTreeMap::<K, V, A>::into_iter": "into_iter",
+})
 
 
 def erase_generics(path):
@@ -214,8 +222,9 @@ class Fn:
 
     def calls_to(self, *paths, name=None, trait=None):
         out = []
+        want = set(paths) | {erase_generics(p) for p in paths}
         for c in self.calls:
-            if paths and (c.path in paths or erase_generics(c.path) in paths or (c.resolved in paths if c.resolved else False)):
+            if paths and (c.path in want or erase_generics(c.path) in want or (c.resolved in want if c.resolved else False)):
                 out.append(c)
             elif name is not None and c.name == name and (trait is None or c.trait == trait):
                 out.append(c)
@@ -268,6 +277,45 @@ class Fn:
 
     def on_cycle(self, bb):
         return bb in self.reach_after(bb)
+
+    def dominators(self):
+        """dom[b] = set of blocks dominating b (iterative, over live non-cleanup blocks)."""
+        if getattr(self, "_dom", None) is not None:
+            return self._dom
+        nodes = sorted(self.reach([0]))
+        allset = set(nodes)
+        dom = {n: set(allset) for n in nodes}
+        dom[0] = {0}
+        changed = True
+        while changed:
+            changed = False
+            for n in nodes:
+                if n == 0:
+                    continue
+                ps = [p for p in self.pred[n] if p in dom]
+                new = set(allset)
+                for p in ps:
+                    new &= dom[p]
+                new |= {n}
+                if new != dom[n]:
+                    dom[n] = new
+                    changed = True
+        self._dom = dom
+        return dom
+
+    def natural_loop(self, header):
+        """Blocks of the natural loop(s) with this header."""
+        dom = self.dominators()
+        body = {header}
+        tails = [t for t in self.pred[header] if t in dom and header in dom[t]]
+        work = list(tails)
+        while work:
+            b = work.pop()
+            if b in body:
+                continue
+            body.add(b)
+            work.extend(p for p in self.pred[b] if p in dom)
+        return body
 
     # ------------------------------------------------------------------ origins (A4)
     def origins_of_operand(self, op, suffix=()):
@@ -342,11 +390,10 @@ class Fn:
             rest = steps
             if lhs_steps:
                 # partial definition `_l.f = ...`
+                # (field writes do not define the whole value; stores through a reference
+                #  define only the exact place written)
                 if steps[:len(lhs_steps)] == lhs_steps:
                     rest = steps[len(lhs_steps):]
-                elif len(steps) < len(lhs_steps) and lhs_steps[:len(steps)] == steps:
-                    out.add((("partial", bb, idx),))
-                    continue
                 else:
                     continue
             if kind == "call":
@@ -698,8 +745,7 @@ class Fn:
             some_e = next(iter(some))
             none_e = next(iter(none))
             # natural loop body: blocks that can reach the header again, starting from the Some target
-            fwd = self.reach([some_e[1]], avoid_blocks=[cs.bb])
-            body = {b for b in fwd if cs.bb in self.reach_after(b)} | {cs.bb, some_e[0]}
+            body = self.natural_loop(cs.bb)
             it = self._op_origins(cs.args[0], (), frozenset())
             out.append({"header": cs.bb, "next": cs, "some": some_e, "none": none_e, "body": body,
                         "iter": it, "elem": self._call_origins(cs, (("variant", "Some"), ("field", 0)), frozenset())})
@@ -717,6 +763,62 @@ class Fn:
         """True iff every path Some-edge -> back to header passes through a block in call_blocks."""
         r = self.reach([lp["some"][1]], avoid_blocks=set(call_blocks))
         return lp["header"] not in r
+
+    # ------------------------------------------------------------------ forward taint
+    def tainted_locals(self, seed_pred):
+        """Flow-insensitive forward slice: locals that may hold data derived from any local
+        satisfying seed_pred(local).  Stores through a pointer taint the pointer's sources."""
+        def locals_of_operand(op):
+            return [op["place"]["local"]] if op["k"] in ("copy", "move") else []
+
+        def locals_of_rv(rv):
+            k = rv["k"]
+            if k in ("use", "cast", "repeat"):
+                return locals_of_operand(rv["op"])
+            if k in ("ref", "raw_ptr", "discriminant"):
+                return [rv["place"]["local"]]
+            if k == "binop":
+                return locals_of_operand(rv["a"]) + locals_of_operand(rv["b"])
+            if k == "unop":
+                return locals_of_operand(rv["a"])
+            if k == "aggregate":
+                out = []
+                for o in rv["ops"]:
+                    out += locals_of_operand(o)
+                return out
+            return []
+        T = {l for l in range(len(self.body["locals"])) if seed_pred(l)}
+        changed = True
+        while changed:
+            changed = False
+            for l, defs in self.defs.items():
+                for (kind, bb, idx, place, payload) in defs:
+                    src = []
+                    if kind == "assign":
+                        src = locals_of_rv(payload)
+                    else:
+                        for a in payload.args:
+                            src += locals_of_operand(a)
+                    if any(x in T for x in src):
+                        targets = [l]
+                        if any(e["k"] == "deref" for e in place["proj"]):
+                            # store through a pointer: also taint what the pointer was made from
+                            work = [l]
+                            seen = set()
+                            while work:
+                                q = work.pop()
+                                if q in seen:
+                                    continue
+                                seen.add(q)
+                                targets.append(q)
+                                for (k2, b2, i2, p2, pl2) in self.defs.get(q, ()):
+                                    if k2 == "assign":
+                                        work += locals_of_rv(pl2)
+                        for t in targets:
+                            if t not in T:
+                                T.add(t)
+                                changed = True
+        return T
 
     # ------------------------------------------------------------------ return values
     def return_value_blocks(self):
@@ -841,6 +943,44 @@ class Program:
         self._summ[fid] = res
         return res
 
+    def lift_once(self, fn, origins, in_test=False):
+        """Substitute parameter-rooted origins into every call site / creation site of fn.
+        Returns [(caller Fn, bb of the site, substituted origin set)] or None if some origin
+        is not rooted at a parameter."""
+        if not origins or not all(o[0][0] == "param" for o in origins):
+            return None
+        out = []
+        if fn.kind == "closure":
+            site = self.closure_sites.get(fn.id)
+            if site is None:
+                return []
+            pf, bb, idx, rv = site
+            caps = fn.body.get("captures", [])
+            sub = set()
+            for o in origins:
+                steps = o[1:]
+                if steps and steps[0] == ("field", "pointer"):
+                    steps = steps[1:]
+                if o[0][1] != 1 or not steps or steps[0][0] != "field":
+                    return None
+                f = steps[0][1]
+                k = caps.index(f) if f in caps else (f if isinstance(f, int) else None)
+                if k is None or k >= len(rv["ops"]):
+                    return None
+                sub |= pf._op_origins(rv["ops"][k], steps[1:], frozenset())
+            return [(pf, bb, sub)]
+        for cs in self.callers.get(fn.id, []):
+            if cs.fn.body.get("in_test") and not in_test:
+                continue
+            sub = set()
+            for o in origins:
+                ai = o[0][1] - 1
+                if ai >= len(cs.args):
+                    return None
+                sub |= cs.fn._op_origins(cs.args[ai], o[1:], frozenset())
+            out.append((cs.fn, cs.bb, sub))
+        return out
+
     # --------------------------------------------------------------- lifting (A3)
     def lift(self, fn, origin, depth=0, seen=None):
         """Rewrite an origin rooted at a parameter/upvar of `fn` into the callers' terms.
@@ -860,6 +1000,8 @@ class Program:
         steps = origin[1:]
         if fn.kind == "closure":
             site = self.closure_sites.get(fn.id)
+            if steps and steps[0] == ("field", "pointer"):
+                steps = steps[1:]       # Pin<&mut Coroutine>
             if root[1] == 1 and steps and steps[0][0] == "field" and site is not None:
                 pf, bb, idx, rv = site
                 caps = fn.body.get("captures", [])
